@@ -182,4 +182,22 @@ theorem sendES_iff (p : Phase) : (step p sendES).isSome = canSend p := by
 theorem recvES_iff (p : Phase) : (step p recvES).isSome = canRecv p := by
   cases p <;> rfl
 
+-- sanity: the life cycles spelled out in RFC 9113 §8 run through `steps`
+
+/-- client side of a request with body and a response with body -/
+example : steps idle [sendH false, sendES, recvH false, recvES] = some closed := rfl
+/-- server side of a GET (END_STREAM on the request HEADERS), response with trailers -/
+example : steps idle [recvH true, sendH false, sendH true] = some closed := rfl
+/-- server push, promising side and receiving side -/
+example : steps idle [sendPP, sendH false, sendES] = some closed := rfl
+example : steps idle [recvPP, recvH false, recvES] = some closed := rfl
+/-- a client cancels a push it does not want -/
+example : steps idle [recvPP, sendR] = some closed := rfl
+/-- DATA after END_STREAM from the peer, RST_STREAM on an idle stream: forbidden -/
+example : steps idle [recvH true, recvES] = none := rfl
+example : steps idle [recvR] = none := rfl
+example : steps idle [sendR] = none := rfl
+/-- late RST_STREAM from the peer on a closed stream: tolerated -/
+example : steps idle [sendH true, recvH true, recvR] = some closed := rfl
+
 end H2V.Spec.Lifecycle
